@@ -170,9 +170,12 @@ def o2(W, ob):
              'local_frame_advantage := %s' % (key(W.ctx(u).expr_rvalue(st[0]['site'].rv))[:160] if st else '?'), where(u))
 
 
+from . import initial
+
 OBLIGATIONS = [
     ('C15.O1', 'the recommendation', 'WaitRecommendation has one constructor, guarded by frames_ahead >= 3 and current > next_recommended_sleep, carrying frames_ahead, '
      're-arming next_recommended_sleep = current + 60 on the same path; frames_ahead is refreshed from max_frame_advantage (max over connected players).', o1),
     ('C15.O2', 'stats guards and plumbing', 'Ok(NetworkStats) only while Synchronizing/Running with >= 1 s of data, fields from the right sources; every quality report '
      'is stored unconditionally and answered; RTT saturates; time-sync samples and the meet-in-the-middle average keep their shape.', o2),
+    ('C15.I', 'initial state', 'every constructor gives the fields this property\'s rules interpret (NULL_FRAME = none / nothing yet, 0 = first frame, latches open, typestate start) the value listed in tables/initial_state.json; every field compared with NULL_FRAME anywhere is listed; see rules/initial.py', initial.rule_for('C15')),
 ]
